@@ -615,5 +615,5 @@ MANIFEST = {
              "values; each read returns exactly those bits; group write/read are inverse; queries are pure. Decided by exhaustive evaluation of the methods' syntax "
              "trees over small widths (the code is width-uniform: only comparisons, shifts and masks of the width occur).",
     "note": "Trusted: the tiny evaluator (sa/engines/ordereval), Python int semantics. Not decided: alternative widths, reversed+grouped combinations with differing endianness.",
-    "technique": "static analysis: abstract evaluation of method ASTs over small bit-vectors/object graphs, may-mutate (purity) summaries with aliasing, twin cross-checks",
+    "technique": "static analysis: abstract evaluation of method ASTs over small bit-vectors/object graphs, may-mutate (purity) summaries with aliasing, twin cross-checks, byte-reversed registers interpreted on the evaluator with value_to_bytes modelled from its contract, export/parse register-set twin",
 }
